@@ -94,7 +94,50 @@ fn is_root(root: i128, i: usize) -> bool {
 
 // the three constructors of a causaloid graph, chosen by the id of the wrapping causaloid
 fn mk_cgraph(id: u64) -> BaseCausalGraph<'static> {
-    match id % 3 { 0 => CausaloidGraph::new_with_capacity(4), 1 => CausaloidGraph::new(), _ => CausaloidGraph::default() }
+    let mut g: BaseCausalGraph<'static> = match id % 3 { 0 => CausaloidGraph::new_with_capacity(4), 1 => CausaloidGraph::new(), _ => CausaloidGraph::default() };
+    if (id / 3) % 2 == 1 {
+        // a RECYCLED graph object: filled with 14 other causaloids (the last one registered as root) and some edges, then cleared.
+        // clear() must leave nothing behind: the graph built afterwards behaves like one built on a fresh object
+        let mut last = 0;
+        for k in 0..14u64 {
+            let c: C = Causaloid::new(900 + k, f_thr, "junk");
+            last = if k == 13 { g.add_root_causaloid(c) } else { g.add_causaloid(c) };
+        }
+        let _ = g.add_edge(last, 0); let _ = g.add_edge(0, 1); let _ = g.add_edge(1, 12);
+        g.clear();
+    }
+    g
+}
+
+// READERS AGAINST AN EVALUATOR. line: causalrd rounds_k nreaders
+// one thread evaluates a CONTEXTUAL singleton (Causaloid::new_with_context) and a plain one alternately true / false; nreaders threads
+// only read is_active() of both at the same time.  After every evaluation the evaluator (the only writer) reads the flag back: it must
+// be the verdict just returned.  output: mismatches of the contextual one, of the plain one.  expected 0 0
+pub fn run_readers(args: &[i128]) -> Vec<i128> {
+    let rounds = (args[0] as usize).max(1) * 1000; let nr = (args[1] as usize).max(1);
+    let ctx: &'static BaseContext = Box::leak(Box::new(Context::with_capacity(1, "c1", 2)));
+    let cc: C = Causaloid::new_with_context(1, f_ctx, Some(ctx), "ctx");
+    let cp: C = Causaloid::new(2, f_thr, "plain");
+    let (cc, cp) = (&cc, &cp);
+    let stop = std::sync::atomic::AtomicBool::new(false);
+    let stop = &stop;
+    let (mc, mp) = std::thread::scope(|sc| {
+        for _ in 0..nr { sc.spawn(move || { let mut n = 0u64; while !stop.load(std::sync::atomic::Ordering::Relaxed) { n += cc.is_active() as u64 + cp.is_active() as u64; } n }); }
+        let h = sc.spawn(move || {
+            let (mut mc, mut mp) = (0i128, 0i128);
+            for r in 0..rounds {
+                // f_ctx with context id 1: an observation ending in 0 is true; f_thr: ending in 1 is true
+                let oc = if r % 2 == 0 { 10.0 } else { 11.0 };
+                if let Ok(v) = cc.verify_single_cause(&oc) { if cc.is_active() != v { mc += 1; } } else { mc += 1000000; }
+                let op = if r % 2 == 0 { 11.0 } else { 10.0 };
+                if let Ok(v) = cp.verify_single_cause(&op) { if cp.is_active() != v { mp += 1; } } else { mp += 1000000; }
+            }
+            stop.store(true, std::sync::atomic::Ordering::Relaxed);
+            (mc, mp)
+        });
+        h.join().unwrap()
+    });
+    vec![mc, mp]
 }
 
 fn mk_shape(c: &'static C, kids: Vec<(usize, Shape)>, kind: i128) -> Shape {
@@ -321,6 +364,9 @@ pub fn run_rm2(args: &[i128], cont: usize, rm: bool, readd: bool) -> Vec<i128> {
                     if g.contains_causaloid(i + big) || g.get_causaloid(i + big).is_some() || g.reason_single_cause(i + big, &one).is_ok() { alias = true; }
                 }
             }
+            // indices just beyond the graph (add-only family: every index >= size is absent), also on recycled objects
+            let n = g.size();
+            if !rm { for i in n..n + 16 { if g.contains_causaloid(i) || g.get_causaloid(i).is_some() { alias = true; } } }
             if alias { flags.push(777002); }
         }
         out.push(flags.len() as i128);
